@@ -157,8 +157,20 @@ func malformedMetadata(r *sim.R, wd *world, m *model.Store, dirTS int64) *sim.Vi
 	add := func(b []byte, d string) { variants = append(variants, b); descr = append(descr, d) }
 	cuts := []int{0, 1, 7, 8, 15, 16, 71, 72, 73, 135, 136, 143, 144, 145, len(orig) - 1, len(orig) - 9, len(orig) - 16, len(orig) - 17}
 	if h.Thorough() {
-		for c := 0; c < len(orig); c++ {
-			cuts = append(cuts, c)
+		// every prefix of a small metadata file; of a larger one the first 160 and the last 40
+		// bytes and 200 drawn positions (a run has to stay within minutes: every variant is fed
+		// to five reader entry points)
+		if len(orig) <= 400 {
+			for c := 0; c < len(orig); c++ {
+				cuts = append(cuts, c)
+			}
+		} else {
+			for c := 0; c < 160; c++ {
+				cuts = append(cuts, c, len(orig)-1-c%40)
+			}
+			for k := 0; k < 200; k++ {
+				cuts = append(cuts, r.T.Draw(len(orig)))
+			}
 		}
 	} else {
 		for k := 0; k < 12; k++ {
